@@ -23,7 +23,8 @@ from nibabel.freesurfer import MGHImage  # noqa: E402
 KLASS = {'N': nib.Nifti1Image, 'P': nib.Nifti1Pair, 'M': MGHImage, 'A': nib.Spm2AnalyzeImage}
 FULL_EXT = {'N': ('.nii',), 'P': ('.img', '.hdr'), 'M': ('.mgh',), 'A': ('.img', '.hdr', '.mat')}
 ATOL = 1e-2      # affine identity; the precision of the stored affine is C04's subject (MGH keeps float32 direction cosines)
-NPDT = {'f4': np.float32, 'f8': np.float64}
+NPDT = {'f4': np.float32, 'f8': np.float64, 'i2': np.int16, 'u1': np.uint8}
+SCALES = [[]]    # per history: [slope, inter, id] of the scale factors the array writers compute
 NVAL = 4
 NAFF = 4
 
@@ -74,12 +75,28 @@ def affine(a, shape=(2, 3, 4)):
 def ident(arr, shape):
     """Which source value is this array (or G)?"""
     arr = np.asarray(arr)
-    if tuple(int(x) for x in arr.shape) != tuple(shape):
+    if core_shape(arr.shape) != core_shape(shape):       # MGH pads to three axes (C01's S-C01a)
         return 'G'
+    arr = arr.reshape(shape)
     for v in range(NVAL):
-        if np.array_equal(arr, value(v, shape)):     # touches every element
+        # touches every element; 0.3 absorbs integer quantisation (C02), the value arrays differ by >= 1
+        if np.allclose(arr, value(v, shape), rtol=0, atol=0.3):
             return str(v)
     return 'G'
+
+
+def scale_id(img):
+    """scale identity of the slope / intercept a loaded image's proxy holds (0 = none)"""
+    d = img.dataobj
+    if np.dtype(getattr(d, 'dtype', np.float64)).kind not in 'iu':
+        return '0'
+    sl, it = float(getattr(d, 'slope', 1.0)), float(getattr(d, 'inter', 0.0))
+    if (sl, it) == (1.0, 0.0):
+        return '0'
+    for s_, i_, k in SCALES[0]:
+        if abs(sl - s_) <= 1e-3 * abs(s_) and abs(it - i_) <= 1e-3 * max(1.0, abs(i_)):
+            return str(k)
+    return '?'
 
 
 def ident_aff(aff, shape):
@@ -91,7 +108,7 @@ def ident_aff(aff, shape):
 
 def dtname(dt):
     dt = np.dtype(dt)
-    return {('f', 4): 'f4', ('f', 8): 'f8'}.get((dt.kind, dt.itemsize), dt.str.lstrip('<>|=') )
+    return {('f', 4): 'f4', ('f', 8): 'f8', ('i', 2): 'i2', ('u', 1): 'u1'}.get((dt.kind, dt.itemsize), dt.str.lstrip('<>|='))
 
 
 def mapped_file(arr):
@@ -115,6 +132,8 @@ def classify(e):
         return 'ref:nofile'
     if isinstance(e, OSError) and e.errno == 28:
         return 'ref:nospace'
+    if type(e).__name__ == 'WriterError':
+        return 'ref:writer'
     if (isinstance(e, OSError) and 'Expected' in m) or (isinstance(e, ValueError) and 'not enough data' in m) \
             or isinstance(e, EOFError):
         return 'ref:short_read'
@@ -149,12 +168,13 @@ def run_history(h, workdir):
     os.chdir(d)
     names = [p['name'] for p in h['paths']]
     SHIFT[0] = h.get('shift', 0)
+    SCALES[0] = h.get('scales', [])
     for p in h['paths']:
         if p['init'] is not None:
             v, dt, a = p['init']
-            if dt == 'i2s':      # int16 on disk with slope 2, intercept 1: the image holds 2 * raw + 1
-                src = KLASS[p['fmt']](value(v, shape).astype(np.int16), affine(a, shape))
-                src.header.set_slope_inter(2, 1)
+            if dt == 'i2s':      # int16 on disk with slope 0.5, intercept 0.5: raw 2V-1 decodes to V
+                src = KLASS[p['fmt']]((2 * value(v, shape) - 1).astype(np.int16), affine(a, shape))
+                src.header.set_slope_inter(0.5, 0.5)
                 src.to_filename(p['name'])
             else:
                 KLASS[p['fmt']](value(v, shape).astype(NPDT[dt]), affine(a, shape)).to_filename(p['name'])
@@ -249,33 +269,11 @@ def run_history(h, workdir):
                     cur = np.dtype(img.get_data_dtype())
                     img.set_data_dtype(np.float32 if cur.itemsize == 8 else np.float64)
                 res = 'done'
-            elif kind == 'W':
-                # a save that the class must refuse: uint8 storage of mixed-sign data without an intercept
-                p = int(tok[2])
-                pre = np.array(np.asanyarray(img.dataobj))
-                before = snapshot()
-                prev = img.get_data_dtype()
-                img.set_data_dtype(np.uint8)
-                try:
-                    nib.save(img, names[p])
-                    res = 'saved_lossy'
-                except Exception as e:
-                    res = 'ref:writer' if type(e).__name__ == 'WriterError' else classify(e)
-                    after = snapshot()
-                    changed = sorted(f for f in set(before) | set(after) if before.get(f) != after.get(f))
-                    if changed:
-                        print('PRED', hid, k, 'refused_save_changed_files:' + ','.join(changed), 'sig=-', flush=True)
-                finally:
-                    img.set_data_dtype(prev)
-                try:
-                    post = np.asanyarray(img.dataobj)
-                    if post.shape != pre.shape or not np.array_equal(post, pre):
-                        print('PRED', hid, k, 'unusable_after_refusal:differs', 'sig=-', flush=True)
-                except Exception as e:
-                    print('PRED', hid, k, 'unusable_after_refusal:' + type(e).__name__, 'sig=-', flush=True)
-            elif kind == 'S':
+            elif kind in 'SW':
+                # W: the save is made with uint8 storage (the class may have to refuse it), then the dtype restored
                 p = int(tok[2])
                 before = snapshot()
+                prev_dt = img.get_data_dtype()
                 try:   # what the image holds at this save (read independently of the save)
                     pre = np.array(np.asanyarray(img.dataobj))
                     pre_aff = np.array(img.affine)
@@ -286,8 +284,21 @@ def run_history(h, workdir):
                 if hasattr(prox, 'file_like') and isinstance(prox.file_like, str):
                     own = prox.file_like
                 try:
-                    nib.save(img, names[p])
+                    if kind == 'W':
+                        img.set_data_dtype(np.uint8)
+                    try:
+                        nib.save(img, names[p])
+                    finally:
+                        if kind == 'W':
+                            img.set_data_dtype(prev_dt)
                 except Exception:
+                    if pre is not None:
+                        try:
+                            post = np.asanyarray(img.dataobj)
+                            if post.shape != pre.shape or not np.allclose(post, pre, rtol=0, atol=0.3):
+                                print('PRED', hid, k, 'unusable_after_refusal:differs', 'sig=-', flush=True)
+                        except Exception as e2:
+                            print('PRED', hid, k, 'unusable_after_refusal:' + type(e2).__name__, 'sig=-', flush=True)
                     after = snapshot()
                     changed = sorted(f for f in set(before) | set(after) if before.get(f) != after.get(f))
                     if changed:    # a refused save must leave every file as it was
@@ -297,14 +308,14 @@ def run_history(h, workdir):
                 f = file_key(image_file(j))
                 saves.setdefault(f, []).append(s)
                 jd = np.asarray(j.dataobj)
-                res = 'saved:%d:%s:%s:%s' % (p, ident(jd, shape), dtname(j.get_data_dtype()), ident_aff(j.affine, shape))
+                res = 'saved:%d:%s:%s:%s:%s' % (p, ident(jd, shape), dtname(j.get_data_dtype()), ident_aff(j.affine, shape), scale_id(j))
                 if pre is not None:
                     # integer storage of float data, or a history whose sources are scaled integers: C02's bound
                     lossy = np.dtype(j.get_data_dtype()).kind in 'iu' or h.get('approx', False)
                     same = core_shape(jd.shape) == core_shape(pre.shape)
                     if same:
                         jd = jd.reshape(pre.shape)
-                        same = np.allclose(jd, pre, rtol=0, atol=0.05) if lossy else np.array_equal(jd, pre)
+                        same = np.allclose(jd, pre, rtol=0, atol=0.3) if lossy else np.array_equal(jd, pre)
                     if not same:
                         print('PRED', hid, k, 'file_differs:data', 'sig=-', flush=True)
                     elif not np.allclose(j.affine, pre_aff, rtol=0, atol=ATOL):
@@ -318,7 +329,7 @@ def run_history(h, workdir):
                             sig = 'own_file_scaling_changed'
                     try:
                         post = np.asanyarray(img.dataobj)
-                        if post.shape != pre.shape or not (np.allclose(post, pre, rtol=0, atol=0.05) if h.get('approx') else
+                        if post.shape != pre.shape or not (np.allclose(post, pre, rtol=0, atol=0.3) if h.get('approx') else
                                                            np.array_equal(post, pre)):
                             print('PRED', hid, k, 'unusable:differs', 'sig=' + sig, flush=True)
                     except Exception as e:
